@@ -50,8 +50,16 @@ def run_case(c):
         rt_cs = G.to_cartesian(cell, G.to_scaled(cell, pos))
         rt_sc = G.to_scaled(cell, G.to_cartesian(cell, sc))
         one = G.to_scaled(cell, pos[0])           # 1-D input is promoted to one row
+        # history: the caller edits THE SAME cell / position arrays in place and calls again; the answers must be those
+        # for the edited values (compared with calls on fresh copies of the edited arrays)
+        ce = cell.copy(); pe = pos.copy(); se = sc.copy()
+        G.to_scaled(ce, pe); G.to_cartesian(ce, se)
+        ce[2] *= 1.25; ce[0] += 0.125 * ce[1]; pe += 0.5; se *= 0.5
+        a1, a2 = G.to_scaled(ce, pe), G.to_cartesian(ce, se)
+        b1, b2 = G.to_scaled(ce.copy(), pe.copy()), G.to_cartesian(ce.copy(), se.copy())
+        inplace_ok = bool(np.allclose(a1, b1, rtol=0, atol=1e-9) and np.allclose(a2, b2, rtol=0, atol=1e-9))
         return {"to_scaled": lst(s), "to_cartesian": lst(x), "rt_cart": lst(rt_cs), "rt_scaled": lst(rt_sc),
-                "one_shape": list(one.shape), "one": lst(one),
+                "one_shape": list(one.shape), "one": lst(one), "inplace_edit_ok": inplace_ok,
                 "inputs_unchanged": same(cell, cell0) and same(pos, pos0) and same(sc, sc0)}
     if fn == "wrap":
         cell = arr(c["cell"]); pos = arr(c["positions"]); sc = arr(c["scaled"]); pbc = pbc_arg(c["pbc"])
@@ -71,6 +79,14 @@ def run_case(c):
     if fn == "mincell":
         at = atoms_of(c)
         cell0 = at.get_cell().array.copy(); pos0 = at.get_positions().copy(); pbc0 = at.get_pbc().copy(); num0 = at.get_atomic_numbers().copy()
+        if c["id"] % 2 == 0:
+            # history: the same Atoms object was handed in before with another cell length along the axis
+            at.get_cell()
+            G.get_minimized_cell(at, c["axis"], c["min_size"])
+            cc = at.get_cell().array.copy(); cc[c["axis"]] *= 1.5
+            at.set_cell(cc, scale_atoms=False)
+            G.get_minimized_cell(at, c["axis"], c["min_size"])
+            at.set_cell(cell0, scale_atoms=False)
         new = G.get_minimized_cell(at, c["axis"], c["min_size"])
         unchanged = same(at.get_cell().array, cell0) and same(at.get_positions(), pos0) and same(at.get_pbc(), pbc0) \
             and same(at.get_atomic_numbers(), num0)
